@@ -83,15 +83,16 @@ Section FindRetag.
     assert (Hfin : forall sorted,
       bind (select (fun sd : sdoc => matchf (snd sd) q) (map (retag f) sorted)
                    (if 0 <? limit then limit + skip else limit))
-           (fun sel => if skip <? 0 then Panic else Ok (drop skip sel)) =
+           (fun sel => Ok (drop skip sel)) =
       rmap (map (retag f))
            (bind (select (fun sd : sdoc => matchf (snd sd) q) sorted
                          (if 0 <? limit then limit + skip else limit))
-                 (fun sel => if skip <? 0 then Panic else Ok (drop skip sel)))).
+                 (fun sel => Ok (drop skip sel)))).
     { intro sorted. rewrite Hsel.
       destruct (select (fun sd : sdoc => matchf (snd sd) q) sorted
                        (if 0 <? limit then limit + skip else limit)); simpl; auto.
-      destruct (skip <? 0); simpl; auto. rewrite drop_map. reflexivity. }
+      rewrite drop_map. reflexivity. }
+    destruct (skip <? 0); [reflexivity|].
     destruct sort as [[|p s]|]; cbn [bind]; try apply Hfin.
     destruct (columns (p :: s)) as [cols| | | |]; cbn [bind]; try reflexivity.
     rewrite Hs. apply Hfin.
@@ -111,13 +112,13 @@ Section FindRetag.
   Lemma find_list_one l q sort r :
     find_list matchf l q sort 0 1 = Ok r -> (List.length r <= 1)%nat.
   Proof.
-    unfold find_list. cbv zeta. intro H.
+    unfold find_list. cbv zeta. intro H. change (0 <? 0) with false in H. cbv iota in H.
     match type of H with bind ?X _ = _ => destruct X as [sorted| | | |] end;
       cbn [bind] in H; try discriminate.
     change (if 0 <? 1 then 1 + 0 else 1) with 1 in H.
     match type of H with bind ?X _ = _ => destruct X as [sel| | | |] eqn:Hsel end;
       cbn [bind] in H; try discriminate.
-    change (0 <? 0) with false in H. cbv iota in H. inversion H; subst.
+    inversion H; subst.
     unfold select in Hsel. apply select_go_one in Hsel.
     destruct sel as [|a [|b t]]; simpl in *; try lia.
   Qed.
